@@ -1,6 +1,6 @@
 SPECIFICATION SpecB
 CONSTANTS
-  Modes <- BothModes
+  Modes <- ThreeModes
   MaxN = 4
   MaxDepth = 2
   MaxE = 5
@@ -10,4 +10,4 @@ CONSTANTS
   EmitOps <- NoEmit
 VIEW absvars
 INVARIANTS TypeOK Inside
-PROPERTIES ObserversPure FailedChangesNothing ContractOnlyWhenThrowing WriteLaw
+PROPERTIES ObserversPure FailedChangesNothing ContractOnlyWhenChecking SubInsideSource WriteLaw
